@@ -298,6 +298,26 @@ def runCb (s : State) : List (CbMode × Cfg × Op) → State
   | [] => s
   | (m, cfg, op) :: rest => runCb (stepCb m cfg s op).1.st rest
 
+/-! ## A callback that calls back into the lifecycle: auto-renewal
+
+`on_senescence` may call `renew()` on the lifecycle it is told about (the lock is re-entrant; `_enter_senescence` does
+nothing but an optional print after the callback).  `stepRe` is `step` under such a callback: when the call announces
+senescence, `renew(None, True)` runs inside it - nested in the caller's region - and the caller then finishes: `tick`
+re-reads the phase for its return value, `record_error` / `check_timeouts` return False as before. -/
+
+def stepRe (cfg : Cfg) (s : State) (op : Op) : Out :=
+  let o := step cfg s op
+  if o.evs.any Ev.isSenescence then
+    let r := step cfg o.st (.renew none true)
+    ⟨r.st,
+      match op with
+      | .tick _ => .bool (decide (r.st.phase = .active))
+      | _ => o.ret,
+      o.evs ++ r.evs,
+      if r.lock.isEmpty then o.lock else o.lock.dropLast ++ r.lock ++ [.rel],
+      o.tag⟩
+  else o
+
 /-! ## Several lifecycles alive at once
 
 The lifecycles of one process share nothing but the clock (`datetime.now()`).  A world is an association list
